@@ -20,7 +20,9 @@ def _check(job):
     import verif.axis
     import verif.util
     import verif.data
-    obj, fmt, enc = job
+    obj, fmt, enc = job[:3]
+    shared = len(job) > 3 and job[3]      # all scores from ONE Data object (what a session computing several scores does), else a fresh one per score
+    shared_data = None
     n = 0
     divs = []
     base = {"kind": "scores", "format": fmt, "encoding": enc, "dataset": {k: obj[k] for k in obj if k not in ("scores", "counts")}}
@@ -42,7 +44,12 @@ def _check(job):
                 for i in range(len(inputs)):
                     try:
                         with quiet(), np.errstate(all="ignore"):
-                            data = dsreplay.make_data(obj, inputs, clim)
+                            if shared:
+                                if shared_data is None:
+                                    shared_data = dsreplay.make_data(obj, inputs, clim)
+                                data = shared_data
+                            else:
+                                data = dsreplay.make_data(obj, inputs, clim)
                             m = verif.metric.get(mname)
                             got = m.compute(data, i, axis, iv)
                         for k, row in enumerate(matrix):
@@ -54,8 +61,9 @@ def _check(job):
                                 site = "score:%s" % mname
                                 if want == "undef":
                                     site = "score:%s:number-from-no-valid-case" % mname
-                                bad(site, "%s input %d axis %s slice %d, missing encoded as %s (%s): expected %r observed %r"
-                                    % (mname, i + 1, AXES[a], k + 1, enc, fmt, want, g), metric=mname, axis=AXES[a], slice=k + 1, input=i + 1)
+                                bad(site, "%s input %d axis %s slice %d, missing encoded as %s (%s)%s: expected %r observed %r"
+                                    % (mname, i + 1, AXES[a], k + 1, enc, fmt, ", all scores on one Data object" if shared else "", want, g),
+                                    metric=mname, axis=AXES[a], slice=k + 1, input=i + 1, shared=bool(shared))
                     except SystemExit:
                         bad("score:error-exit", "%s axis %s input %d ended in an error exit" % (mname, AXES[a], i + 1), metric=mname)
                     except Exception as e:
@@ -85,8 +93,10 @@ def run(ctx):
         if ctx.tier == "quick":
             jobs.append((o, "text", rng.choice(TEXT_TOKENS)))
             jobs.append((o, "netcdf", rng.choice(NC_ENC)))
+            if rng.random() < 0.35:
+                jobs.append((o, "text", "-999", True))
         else:
-            jobs += [(o, "text", t) for t in TEXT_TOKENS] + [(o, "netcdf", e) for e in NC_ENC]
+            jobs += [(o, "text", t) for t in TEXT_TOKENS] + [(o, "netcdf", e) for e in NC_ENC] + [(o, "text", "-999", True)]
     for n, divs in par.pmap(_check, jobs, chunk=2):
         ctx.evaluations += n
         for site, detail, rep in divs:
@@ -96,7 +106,7 @@ def run(ctx):
     c08._run(ctx, "ens", "small", limit=(400 if ctx.tier == "quick" else None))
     c08._run(ctx, "event", "full", limit=(300 if ctx.tier == "quick" else 3000))
     ctx.traces += len(jobs)
-    for o, fmt, enc in jobs:
+    for o, fmt, enc in [j[:3] for j in jobs]:
         if any("nan" in i["obs"] or "nan" in i["fcst"] for i in o["inputs"]):
             ctx.nontriv(str((o["inputs"], fmt, enc)))
     if res.emitted:
